@@ -256,6 +256,8 @@ class G:
         """a block whose condition lines / word list / body use the positional parameters of the place it stands in"""
         def body():
             b = [self.simple() for _ in range(self.rng.randint(1, 3))]
+            if where == "top" and self.rng.random() < 0.06:
+                b.insert(self.rng.randint(0, len(b) - 1), ("sete",))        # switched on inside a block body
             if depth < 1 and self.rng.random() < 0.25:
                 b.insert(self.rng.randint(0, len(b)), self.block(depth + 1, where, plain_args))
                 b.append(("status", 0, self.tag("M")))
@@ -282,6 +284,9 @@ class G:
             name = self.rng.choice(["f", "my_fn", "do-it", "_g", "fn2", "a-b_c"]) + str(len(self.funcnames))
             self.funcnames.append(name)
         body = [self.simple() for _ in range(self.rng.randint(1, 4))]
+        if self.rng.random() < 0.08:
+            # the option is switched on inside the function: a failure later in the same call already ends the script
+            body.insert(self.rng.randint(0, len(body) - 1), ("sete",))
         if self.rng.random() < 0.3:
             body.insert(self.rng.randint(0, len(body)), self.block(0, "func"))
             body.append(("status", self.rng.choice([0, 0, 3]), self.tag("M")))
